@@ -395,6 +395,31 @@ func (p *genPat) text() string {
 	return sb.String()
 }
 
+// leadless: letters in both cases and bytes >= 0x80 that no UTF-8 sequence can hold or begin
+var leadless = []byte("aAbBzZ:= \x80\xbf\xc0\xc1\xf5\xfe\xff\xff\xfe")
+
+// nearMiss replaces one byte >= 0x80 of s by a different byte that is invalid UTF-8 as well
+func nearMiss(r *rand.Rand, s string) string {
+	b := []byte(s)
+	var at []int
+	for i, c := range b {
+		if c >= 0x80 {
+			at = append(at, i)
+		}
+	}
+	if len(at) == 0 {
+		return s
+	}
+	i := at[r.Intn(len(at))]
+	for {
+		c := []byte{0x80, 0xbf, 0xc0, 0xc1, 0xf5, 0xfe, 0xff}[r.Intn(7)]
+		if c != b[i] {
+			b[i] = c
+			return string(b)
+		}
+	}
+}
+
 func randLit(r *rand.Rand, mode int, allowEmpty bool) string {
 	if allowEmpty && r.Intn(4) == 0 {
 		return ""
@@ -413,6 +438,13 @@ func randLit(r *rand.Rand, mode int, allowEmpty bool) string {
 		const cs = "abcXYZ xyzABC:;-=[]\"'/09_|}{"
 		for i := range b {
 			b[i] = cs[r.Intn(len(cs))]
+		}
+		return string(b)
+	case 3: // ASCII letters and bytes that are invalid UTF-8 wherever they stand (no lead byte in the text)
+		n := 1 + r.Intn(3)
+		b := make([]byte, n)
+		for i := range b {
+			b[i] = leadless[r.Intn(len(leadless))]
 		}
 		return string(b)
 	default: // any bytes but '%'
@@ -554,6 +586,8 @@ func randFill(r *rand.Rand, mode int, p *genPat) string {
 				b[i] = "aAb: "[r.Intn(5)]
 			case 1:
 				b[i] = byte(32 + r.Intn(95))
+			case 3:
+				b[i] = leadless[r.Intn(len(leadless))]
 			default:
 				b[i] = byte(r.Intn(256))
 			}
@@ -583,9 +617,14 @@ func randFill(r *rand.Rand, mode int, p *genPat) string {
 			s += smallSyms[r.Intn(len(smallSyms))]
 		case 1:
 			s += string(rune(32 + r.Intn(95)))
+		case 3:
+			s += string([]byte{leadless[r.Intn(len(leadless))]})
 		default:
 			s += string([]byte{byte(r.Intn(256))})
 		}
+	}
+	if mode == 3 && r.Intn(3) == 0 { // nothing after the last literal: the rest of the line is exactly as long as it
+		return ""
 	}
 	return s
 }
@@ -603,8 +642,14 @@ func randLine(r *rand.Rand, mode int, p *genPat, noLF bool) []byte {
 		lit := func(s string) {
 			switch r.Intn(10) {
 			case 0: // dropped
-			case 1, 2, 3:
+			case 1, 2:
 				sb.WriteString(flipCase(r, s))
+			case 3:
+				if mode == 3 {
+					sb.WriteString(nearMiss(r, flipCase(r, s)))
+				} else {
+					sb.WriteString(flipCase(r, s))
+				}
 			default:
 				sb.WriteString(s)
 			}
@@ -689,7 +734,7 @@ func c12Trace(args []string) error {
 		}
 	}
 	for i := 0; i < *n; i++ {
-		mode := i % 3
+		mode := i % 4
 		one(randPattern(r, mode, false, true), mode, r.Intn(2) == 0, 8+r.Intn(30), true)
 	}
 	for i := 0; i < *long; i++ {
